@@ -128,8 +128,34 @@ fn block_hash(b: &Value) -> [u8; 32] {
     sha2::Sha256::digest(b.to_string().as_bytes()).into()
 }
 
+/// Two blocks that differ only in the evidence they carry have the same time, proposer and last commit.
+fn without_evidence(b: &Value) -> Value {
+    let mut c = b.clone();
+    c["misb"] = json!(false);
+    c
+}
+
+/// Evidence against the first validator of the set, if the block carries any.
+fn misbehavior(b: &Value, height: tendermint::block::Height) -> Vec<abci::types::Misbehavior> {
+    if !b["misb"].as_bool().unwrap_or(false) {
+        return vec![];
+    }
+    let _ = height;
+    let v = Validator {
+        address: *ALICE_ADDRESS_BYTES,
+        power: 100u32.into(),
+    };
+    vec![abci::types::Misbehavior {
+        kind: abci::types::MisbehaviorKind::DuplicateVote,
+        validator: v,
+        height: 1u32.into(),
+        time: Time::from_unix_timestamp(1_744_036_000, 0).unwrap(),
+        total_voting_power: 100u32.into(),
+    }]
+}
+
 fn block_time(b: &Value) -> Time {
-    Time::from_unix_timestamp(1_744_037_000 + i64::from(block_hash(b)[0]), 0).unwrap()
+    Time::from_unix_timestamp(1_744_037_000 + i64::from(block_hash(&without_evidence(b))[0]), 0).unwrap()
 }
 
 fn extended_commit(b: &Value, height: tendermint::block::Height) -> ExtendedCommitInfo {
@@ -194,7 +220,7 @@ async fn prepare(f: &mut Fixture, b: &Value, txs: &Txs, height: tendermint::bloc
         txs: vec![],
         max_tx_bytes: 1_000_000,
         local_last_commit: Some(extended_commit(b, height)),
-        misbehavior: vec![],
+        misbehavior: misbehavior(b, height),
     };
     let storage = f.storage();
     f.app.prepare_proposal(req, storage).await.map(|r| r.txs).map_err(|e| format!("{e:#}"))
@@ -209,7 +235,7 @@ fn process_req(b: &Value, txs: Vec<Bytes>, height: tendermint::block::Height) ->
         proposer_address: proposer(),
         txs,
         proposed_last_commit: Some(last_commit(b, height)),
-        misbehavior: vec![],
+        misbehavior: misbehavior(b, height),
     }
 }
 
@@ -222,7 +248,7 @@ fn finalize_req(b: &Value, txs: Vec<Bytes>, height: tendermint::block::Height) -
         proposer_address: proposer(),
         txs,
         decided_last_commit: last_commit(b, height),
-        misbehavior: vec![],
+        misbehavior: misbehavior(b, height),
     }
 }
 
